@@ -157,6 +157,7 @@ def run(prop, tier, replay=None):
         transitions=mc["generated"] + stats["generated"],
         model_states=mc["distinct"], model_transitions=mc["generated"],
         trace_states=stats["distinct"],
+        spec_expressions_not_evaluated_on_traces=sorted(stats.get("uncovered") or []),
         traces_validated_against_impl=acc,
         evaluations=total,
         distinct_nontrivial=len(distinct),
